@@ -18,6 +18,7 @@ kernel:
 # hygiene gate: no Admitted/admit/Axiom/Parameter/Conjecture/guard switches anywhere in the development
 gate:
 	@! grep -rnE '\b(Admitted|admit|Axiom|Parameter|Conjecture|Admit Obligations)\b|Unset Guard|bypass_check|type-in-type|impredicative-set' coq --include='*.v' | grep -v '^coq/[^:]*:[0-9]*: *(\*' || (echo "GATE FAILED" && false)
+	@python3 tools/gate_sections.py coq || (echo "GATE FAILED: Variable/Hypothesis outside a section" && false)
 
 clean:
 	cd coq && [ -f Makefile ] && $(MAKE) clean || true
